@@ -535,6 +535,55 @@ prop("C19",
      note="differential: trusts neither side alone; the C side is tied to the specification by C01-C05",
      design_ref="DESIGN.md#c19")
 
+
+# ----------------------------------------------------------------------------- C20 (example tools)
+def _build_tools():
+    """Build skinny-ctr / skinny-tweak / skinny-ecb from the current tree against the freshly built library."""
+    import hashlib, tempfile, shutil
+    ex = os.path.join(skv.REPO, "examples")
+    srcs = sorted(_glob.glob(os.path.join(ex, "*.[ch]")))
+    lib = skv.build_lib(SHIPPED)
+    h = skv.sha_files(srcs + [lib], "tools")
+    out = os.path.join(skv.BUILD, "tools", h)
+    if not os.path.exists(os.path.join(out, "skinny-ecb")):
+        tmp = tempfile.mkdtemp(prefix="tools-", dir=skv._mk(os.path.join(skv.BUILD, "tmp")))
+        try:
+            for t in ("skinny-ctr", "skinny-tweak", "skinny-ecb"):
+                cmd = ["gcc", "-O3", "-std=c99", "-Wall", "-I" + os.path.join(skv.REPO, "include"), "-I" + ex, "-o", os.path.join(tmp, t),
+                       os.path.join(ex, t + ".c"), os.path.join(ex, "options.c"), lib]
+                rc, o = skv.sh(cmd)
+                if rc != 0:
+                    raise skv.InfraError("example tool does not build: %s\n%s" % (" ".join(cmd), o[-3000:]))
+            skv._mk(os.path.dirname(out))
+            if os.path.exists(out):
+                shutil.rmtree(out)
+            os.replace(tmp, out)
+        finally:
+            shutil.rmtree(tmp, ignore_errors=True)
+        skv._prune(os.path.join(skv.BUILD, "tools"), 30)
+    return ["--tools", out]
+
+prop("C20",
+     units=lambda tier: [Unit("c20", "c20.cpp", SHIPPED, cases=scale(tier, 250, 6000), shards=16, args=_build_tools,
+                              env={"SKV_TMP": skv._mk(os.path.join(skv.BUILD, "tmp"))})],
+     level="exploration",
+     rule=("process-level cases: tool in {skinny-ctr, skinny-tweak, skinny-ecb} x block size {64, 128; -b given or defaulted} x key of "
+           "a legal length (30 % in-between lengths) x optional counter/tweak of length 1..bs (carry-heavy values) x file content of "
+           "length from {0, 1, bs-1, bs, bs+1, 1023, 1024, 1025, 2047..2049, 2048+bs+3, uniform <= 5000}; the tool built from the "
+           "current tree is run (posix_spawn) on files in a private directory; oracle: output == the library computing the same "
+           "in-process (CTR over the whole input; tweakable encryption of whole blocks under tweak0 + i, big-endian over the given "
+           "tweak length; ECB of whole blocks), length rule, and a second run (-d for tweak/ecb) restores the (truncated) input; "
+           "22 % invalid invocations (no -k, key too short / too long for tool and block size, counter/tweak longer than the block, "
+           "bad -b, non-hex digits, empty key, unknown option, unreadable input) must exit non-zero and leave no output file; "
+           "non-trivial = invalid invocation, or length > 1024 and not a multiple of the block, or short counter/tweak, or in-between key"),
+     assumptions=BUILD_ASSUME + ["the in-process library computation is tied to the specification by C01, C04, C05, C10",
+                  "odd-length hex strings and separator characters are not generated (undocumented either way)"],
+     technique="process-level property-based testing (rapidcheck): generated files/keys/options through the built tools vs in-process library + round trip",
+     text=("Generated files, keys, counters/tweaks and option sets are pushed through the real executables and compared with the "
+           "library and by round trip; invalid option classes are enumerated with generated values. Sampling."),
+     note="trusts the in-process library as oracle (checked by the other properties)",
+     design_ref="DESIGN.md#c20")
+
 # ----------------------------------------------------------------------------- generic entry points
 def run(pid, tier, seed, replay):
     p = PROPS[pid]
